@@ -45,6 +45,7 @@ class Endpoint:
 
 class Sim:
     MAX_EVENTS = 200_000
+    MAX_SPIN = 20_000
 
     def __init__(self):
         self.now = 0
@@ -61,6 +62,8 @@ class Sim:
         self.sleep_overshoot = None  # callable(ns) -> extra ns
         self.counters = {}
         self.step_limited = False
+        self._spin_at = None
+        self._spin_n = 0
         self.recv_cost_ns = 0  # "slow node": virtual time spent by the client per received datagram
 
     # ---- counters / probes
@@ -154,7 +157,18 @@ class Sim:
                     deadline = self.now + timeout_ns
                 self.run_until(deadline, stop=lambda: bool(ep.queue))
             if not ep.queue:
-                self.log("rx-none", ep.idx, self.now)
+                # a caller that polls an empty non-blocking socket over and over without ever
+                # letting (virtual) time pass is spinning: it would starve a real event loop
+                if self._spin_at == (fd, self.now):
+                    self._spin_n += 1
+                    if self._spin_n > self.MAX_SPIN:
+                        self.step_limited = True
+                        raise SimStepLimit("busy polling of an empty socket (%d polls at one instant)" % self._spin_n)
+                else:
+                    self._spin_at = (fd, self.now)
+                    self._spin_n = 0
+                if self._spin_n < 3:
+                    self.log("rx-none", ep.idx, self.now)
                 return None
             d = ep.queue.pop(0)
             self.log("rx", ep.idx, self.now, d.id)
